@@ -556,9 +556,15 @@ fn main() {
         FILL_AFTER_SHARED.store(true, Ordering::Relaxed);
         'sweep2: for &prefill in &fills2 {
             for body in [vec![vec![Op::TryFromA], vec![Op::TryFromDeep]], vec![vec![Op::BuildA], vec![Op::UncachedDeep2]]] {
-                let r = explore(&body, None, 2_000_000, budget * 4.0, prefill);
+                // all schedules with at most two preemptions first (closes in any case), then all
+                let mut r = explore(&body, Some(2), 2_000_000, budget, prefill);
                 total_exec += r.executions;
                 sweep2_exec += r.executions;
+                if r.violation.is_none() {
+                    r = explore(&body, None, 2_000_000, budget, prefill);
+                    total_exec += r.executions;
+                    sweep2_exec += r.executions;
+                }
                 if r.capped {
                     capped += 1;
                 }
